@@ -247,6 +247,8 @@ func checkC12(c CaseC12, x *hx.Ctx) *hx.Failure {
 	x.LabelIf(e.Flags&0x08 != 0, "time-flag")
 
 	// (1) decode
+	wire := raw
+	raw, spareIntact := withSpare(wire)
 	keep := clone(raw)
 	got, err := ebp.ReadEncoderBoundaryPoint(raw)
 	if err != nil {
@@ -263,8 +265,8 @@ func checkC12(c CaseC12, x *hx.Ctx) *hx.Failure {
 	if re := got.Data(); !bytes.Equal(re, raw) {
 		return hx.Failf("ebp-reencode", "re-encoding the decoded EBP gives %x, input was %x", re, raw)
 	}
-	if !bytes.Equal(keep, raw) {
-		return hx.Failf("ebp-read-mutates", "Data() modified the decoder's input")
+	if !bytes.Equal(keep, raw) || !spareIntact() {
+		return hx.Failf("ebp-read-mutates", "Data() modified the decoder's input (or the spare capacity behind it)")
 	}
 	// (3) builder path
 	built, data, edit := c12Build(e)
